@@ -463,6 +463,49 @@ pub fn cmd_check(opts: &BTreeMap<String, String>) -> i32 {
     }
     let _ = known_entries;
 
+    // ---------------- C13: cross-check of the snapshot stub against a real fork + SIGKILL
+    let mut fidelity_json = J::Null;
+    if prop == "C13" {
+        let n = if tier == "quick" { 150 } else { 3000 };
+        match run_with_timeout(Command::new(&exe).arg("fidelity").args(["--runs", &n.to_string()]).args(["--seed", &seed.to_string()]), 600) {
+            Some((code, out)) => {
+                let mut attempted = 0u64;
+                let mut compared = 0u64;
+                let mut mism = 0u64;
+                for l in out.lines() {
+                    if let Some(rest) = l.strip_prefix("FIDELITY attempted=") {
+                        let nums: Vec<u64> = rest.split(|c: char| !c.is_ascii_digit()).filter(|x| !x.is_empty()).filter_map(|x| x.parse().ok()).collect();
+                        if nums.len() >= 4 {
+                            attempted = nums[0];
+                            compared = nums[1];
+                            mism = nums[3];
+                        }
+                    }
+                    if l.starts_with("FIDELITY-MISMATCH") {
+                        println!("{l}");
+                    }
+                }
+                println!("kill fidelity: {compared} real fork+SIGKILL executions compared with the snapshot taken at the same hook point, {mism} mismatches");
+                fidelity_json = J::obj(vec![
+                    ("what", J::s("the same trace is run in a forked child that SIGKILLs itself at global hook point K and in-process with a byte copy at K; both directories must open to the same full observation and hold the same event.map bytes")),
+                    ("attempted", J::u(attempted)),
+                    ("compared", J::u(compared)),
+                    ("mismatches", J::u(mism)),
+                ]);
+                if (code != 0 || mism > 0 || compared == 0) && exit == 0 {
+                    println!("HARNESS-ERROR: the snapshot stub disagrees with a real SIGKILL (or the probe did not run)");
+                    exit = 2;
+                }
+            }
+            None => {
+                println!("HARNESS-ERROR: fidelity probe timed out");
+                if exit == 0 {
+                    exit = 2;
+                }
+            }
+        }
+    }
+
     // ---------------- evidence
     let mut samples = vec![];
     for i in 0..3u64.min(runs) {
@@ -525,6 +568,7 @@ pub fn cmd_check(opts: &BTreeMap<String, String>) -> i32 {
         ("anomalies", J::u(anomalies.len() as u64)),
         ("worker_processes_died", J::u(agg.crashed.len() as u64)),
         ("known_findings_fired", J::Arr(known_json)),
+        ("kill_fidelity_probe", fidelity_json),
         ("exhaustive", J::Bool(false)),
         (
             "components_real",
@@ -718,5 +762,24 @@ pub fn cmd_selftest(opts: &BTreeMap<String, String>) -> i32 {
         2
     } else {
         0
+    }
+}
+
+/// `pocket-sim fidelity --runs N --seed S`: real fork + SIGKILL vs the snapshot stub
+pub fn cmd_fidelity(opts: &BTreeMap<String, String>) -> i32 {
+    let runs: u64 = opts.get("runs").and_then(|s| s.parse().ok()).unwrap_or(50);
+    let seed: u64 = opts.get("seed").and_then(|s| s.parse().ok()).unwrap_or(1);
+    let rep = crate::fidelity::run_fidelity(seed, runs);
+    println!("FIDELITY attempted={} compared={} event_map_identical={} mismatches={}", rep.attempted, rep.compared, rep.event_map_identical, rep.mismatches.len());
+    for (k, v) in &rep.by_point {
+        println!("FIDELITY-POINT {k} {v}");
+    }
+    for m in rep.mismatches.iter().take(5) {
+        println!("FIDELITY-MISMATCH {m}");
+    }
+    if rep.mismatches.is_empty() {
+        0
+    } else {
+        2
     }
 }
